@@ -84,8 +84,8 @@ class BaseGeo(BaseTransform):
     @staticmethod
     def _process_style_kwargs(style=None, **kwargs):
         if kwargs:
-            if style is None:
-                style = {}
+            # work on a copy: the caller's dictionary must not be modified
+            style = {} if style is None else dict(style)
             style_kwargs = {}
             for k, v in kwargs.items():
                 if k.startswith("style_"):
